@@ -172,7 +172,7 @@ def run_seq(cfg, seq):
         with rec:
             for n in seq:
                 raised, ret = None, None
-                signal.alarm(60)
+                signal.alarm(300)
                 try:
                     with quiet():
                         ret = cal.calibrate(n)
